@@ -190,7 +190,8 @@ class Oracle(Q.QOracle):
       return ("not-a-ternary-code", "x=%r y=%r scale=%r" % (
           float(x64.reshape(-1)[i]), float(y64.reshape(-1)[i]),
           float(s.reshape(-1)[i])))
-    wrong_sign = (code != 0) & (code != np.sign(x64))
+    # zero counts as positive
+    wrong_sign = (code != 0) & (code != np.where(x64 < 0, -1.0, 1.0))
     if wrong_sign.any():
       i = int(np.argmax(wrong_sign.reshape(-1)))
       return ("sign-wrong", "x=%r y=%r" % (float(x64.reshape(-1)[i]),
@@ -198,10 +199,12 @@ class Oracle(Q.QOracle):
     if not isinstance(alpha, str):
       thr = kw.get("threshold")
       thr = 0.33 if thr is None else float(thr)
-      near = np.abs(np.abs(x64) - thr) <= 1e-6 * max(thr, 1.0)
-      want_zero = np.abs(x64) < thr
+      # the comparison is made in float32 against the float32 threshold:
+      # "zero exactly when the magnitude is below the threshold" is decided
+      # exactly, a magnitude EQUAL to the threshold is not below it
+      want_zero = np.abs(x.astype(np.float32)) < np.float32(thr)
       # a zero scale makes every output zero; codes are then unobservable
-      obs = (~near) & (s > 0)
+      obs = s > 0
       bad = obs & (want_zero != (code == 0))
       if bad.any():
         i = int(np.argmax(bad.reshape(-1)))
@@ -306,7 +309,7 @@ STUB = ["tf.random.uniform (seam)", "learning phase (scheduler-driven)"]
 WEIGHTS = {"CALL": 10, "READ_SCALE": 3, "PHASE": 2, "RNG": 1, "TRAINABLE": 0.7,
            "RESTART": 1.5, "FAILDRAW": 0.5}
 KINDS = [("gauss", 5), ("uniform", 2), ("zeros", 1), ("zero_channel", 2),
-         ("mixed", 3), ("grid", 1), ("po2", 1)]
+         ("mixed", 3), ("grid", 1), ("po2", 1), ("at_values", 1)]
 MAGS = [1.0, 1.0, 0.3, 3.0, 1e-3, 50.0, 1e4, 1e-5]
 
 
@@ -371,6 +374,27 @@ def directed():
                   "seed": 1, "world": {"quantizers": [
                       {"cls": spec["cls"], "kw": kw, "shape": shape}]},
                   "ops": ops})
+  # inputs exactly ON the ternary threshold (and one float32 step either
+  # side): "zero exactly when the magnitude is below the threshold"
+  for cls in ("ternary", "stochastic_ternary"):
+    for alpha in (None, 1.0, 2.0):
+      for thr in (None, 0.5, 0.25, 0.75, 1.0, 0.33, 0.1):
+        if cls == "stochastic_ternary" and thr is not None and thr >= 1.0:
+          continue   # rejected by the constructor
+        kw = {}
+        if alpha is not None:
+          kw["alpha"] = alpha
+        if thr is not None:
+          kw["threshold"] = thr
+        t = {"kind": "at_values", "seed": 71, "mag": 1.0,
+             "vals": [0.33 if thr is None else thr]}
+        out.append({"label": "directed:threshold-boundary:%s:%r:%r" % (
+            cls, alpha, thr), "seed": 1, "world": {"quantizers": [
+                {"cls": cls, "kw": kw, "shape": [4, 8]}]},
+                    "ops": [{"k": "CALL", "q": 0, "t": t, "sub": 1},
+                            {"k": "READ_SCALE", "q": 0},
+                            {"k": "CALL", "q": 0, "t": dict(t, seed=72),
+                             "sub": 2}]})
   for i, spec in enumerate(_grouping_worlds()):
     ops = []
     for j, t in enumerate(GROUP_TENSORS):
